@@ -6,6 +6,9 @@ use std::panic::{catch_unwind, AssertUnwindSafe};
 
 mod util;
 mod schema_ops;
+mod canon;
+mod ops;
+mod gen;
 
 fn main() {
     std::panic::set_hook(Box::new(|_| {}));
@@ -34,6 +37,16 @@ fn main() {
 fn dispatch(op: &str, toks: &[&str]) -> String {
     if let Some(r) = schema_ops::dispatch(op, toks) {
         return r;
+    }
+    if op.starts_with("ty_") {
+        let ty = toks[0].parse::<usize>().unwrap();
+        return gen::dispatch(ty, op, &toks[1..]);
+    }
+    match op {
+        "probe_item" => return gen::item_probe(toks[0].parse().unwrap()),
+        "probe_tuple" => return gen::tuple_probe(toks[0].parse().unwrap()),
+        "probe_variant" => return gen::variant_probe(toks[0].parse().unwrap(), toks[1].parse().unwrap()),
+        _ => {}
     }
     format!("UNKNOWN-OP {}", op)
 }
